@@ -163,6 +163,106 @@ Proof.
   exact Sfonts.
 Qed.
 
+(* ------------------------------------------------------------------ a picture that uses two font pages, whatever their numbers *)
+Definition renum2 (p : pic) (pb : N) (fa fb : font) : pic :=
+  mkPic (p_w p) (p_h p) (p_ice p)
+        (map (map (fun c => cell_with_page c (if (pg c =? pb)%N then 1 else 0)%N)) (p_rows p)) (p_pal p) [(0%N, fa); (1%N, fb)].
+
+Lemma used_pages_from_cells rows l : used_pages rows = l -> (2 <= length l)%nat ->
+  forall x, In x l -> exists c, In c (concat rows) /\ pg c = x.
+Proof.
+  unfold used_pages. intros H Hl x Hx.
+  destruct (fold_left (fun acc c => insert_sorted (pg c) acc) (concat rows) []) as [|a t] eqn:E.
+  - subst l. cbn in Hl. lia.
+  - subst l. rewrite <- E in Hx. apply fold_insert_In in Hx. destruct Hx as [[]|Hx]. exact Hx.
+Qed.
+
+Lemma save_rows_ext (e1 e2 : cell -> list N) rows : (forall c, e1 c = e2 c) -> save_rows e1 rows = save_rows e2 rows.
+Proof. intro H. unfold save_rows. f_equal. apply map_ext. intro r. f_equal. apply map_ext. exact H. Qed.
+
+Lemma xb_roundtrip_pages2 p s comp pa pb fa fb h :
+  xb_common p -> used_pages (p_rows p) = [pa; pb] -> pa <> pb ->
+  all_pic_cells (fun c => cell8 (p_ice p) c /\ (foreground_color (c_attr c) < 8)%N /\ is_bold (c_attr c) = false) p ->
+  get_font (p_fonts p) pa = Some fa -> get_font (p_fonts p) pb = Some fb -> font_wf h fa -> font_wf h fb -> (1 <= h <= 32)%N ->
+  exists data b, save_xbo comp p = Ok data /\ load_xb2 data s = Ok b /\ same_picture_glyphs p (pic_of b).
+Proof.
+  intros Hcommon Hused Hne Hcells Hfa Hfb Hwa Hwb Hh.
+  pose proof Hcommon as (Hrect & Hw & Hhh & Hpl & Hp6).
+  set (g := fun c : cell => cell_with_page c (if (pg c =? pb)%N then 1 else 0)%N).
+  set (p0 := renum2 p pb fa fb).
+  assert (Hpages : Forall (Forall (fun c => In (pg c) [pa; pb])) (p_rows p)) by (apply used_pages_all, Hused).
+  destruct (used_pages_from_cells _ _ Hused ltac:(cbn; lia) pa ltac:(cbn; auto)) as (ca & Hca & Hpa).
+  destruct (used_pages_from_cells _ _ Hused ltac:(cbn; lia) pb ltac:(cbn; auto)) as (cb & Hcb & Hpb).
+  assert (Hr0 : representable_xb2 p0).
+  { split; [|split; [|split]].
+    - unfold xb_common, p0, renum2. cbn [p_w p_h p_pal p_rows].
+      split; [|auto]. destruct Hrect as (H1 & H2 & H3 & H4). unfold rect. cbn [p_w p_h p_rows].
+      split; [exact H1|]. split; [exact H2|]. split; [rewrite map_length; exact H3|].
+      apply Forall_forall. intros r' Hr'. apply in_map_iff in Hr'. destruct Hr' as (r & <- & Hr).
+      rewrite map_length. rewrite Forall_forall in H4. apply H4, Hr.
+    - (* pages 0 and 1 are both in use *)
+      assert (H01 : Forall (Forall (fun c => pg c = 0%N \/ pg c = 1%N)) (p_rows p0)).
+      { unfold p0, renum2. cbn [p_rows]. apply Forall_forall. intros r' Hr'. apply in_map_iff in Hr'. destruct Hr' as (r & <- & Hr).
+        apply Forall_forall. intros c' Hc'. apply in_map_iff in Hc'. destruct Hc' as (c & <- & Hc).
+        cbn [cell_with_page c_attr with_page font_page]. destruct (pg c =? pb)%N; auto. }
+      assert (Hin : forall c, In c (concat (p_rows p)) -> In (g c) (concat (p_rows p0))).
+      { intros c Hc. unfold p0, renum2. cbn [p_rows]. rewrite <- concat_map. apply in_map. exact Hc. }
+      pose proof (used_pages_In _ _ (Hin ca Hca)) as H0. pose proof (used_pages_In _ _ (Hin cb Hcb)) as H1.
+      unfold g in H0, H1. cbn [cell_with_page c_attr with_page font_page] in H0, H1.
+      rewrite Hpa in H0. rewrite Hpb, N.eqb_refl in H1.
+      destruct (N.eqb_spec pa pb) as [E|_]; [contradiction|].
+      destruct (used_pages_01 _ H01) as [Hu|[Hu|Hu]]; rewrite Hu in H0, H1; cbn in H0, H1.
+      + destruct H1 as [H1|[]]. discriminate.
+      + destruct H0 as [H0|[]]. discriminate.
+      + exact Hu.
+    - unfold all_pic_cells, p0, renum2. cbn [p_rows p_ice].
+      apply Forall_forall. intros r' Hr'. apply in_map_iff in Hr'. destruct Hr' as (r & <- & Hr).
+      apply Forall_forall. intros c' Hc'. apply in_map_iff in Hc'. destruct Hc' as (c & <- & Hc).
+      unfold all_pic_cells in Hcells. rewrite Forall_forall in Hcells. specialize (Hcells r Hr).
+      rewrite Forall_forall in Hcells. destruct (Hcells c Hc) as (H8 & Hfg & Hb).
+      split; [exact H8|]. split; [exact Hfg|]. split; [exact Hb|].
+      cbn [cell_with_page c_attr with_page font_page]. destruct (pg c =? pb)%N; auto.
+    - exists fa, fb, h. unfold p0, renum2. cbn [p_fonts get_font N.eqb Pos.eqb]. auto. }
+  destruct (xb2_hyps p0 Hr0) as (f0' & f1' & h' & Hh0).
+  assert (Ef : f0' = fa /\ f1' = fb /\ h' = h).
+  { destruct Hh0 as (_ & _ & Hg0 & Hwf0' & _ & Hg1 & _). destruct (Hg1 eq_refl) as (Hg1' & _).
+    unfold p0, renum2 in Hg0, Hg1'. cbn [p_fonts get_font N.eqb Pos.eqb] in Hg0, Hg1'.
+    injection Hg0 as <-. injection Hg1' as <-. split; [reflexivity|]. split; [reflexivity|].
+    destruct Hwf0' as (E1 & _). destruct Hwa as (E2 & _). congruence. }
+  destruct Ef as (-> & -> & ->).
+  assert (Hshape : xb_shape_g p true pa pb fa fb h).
+  { split; [split; [exact Hcommon|split; [exact Hwa|split; [exact Hh|intros _; exact Hwb]]]|].
+    split; [exact Hused|]. split; [exact Hfa|intros _; exact Hfb]. }
+  assert (Hch : Forall (Forall (fun c => (c_ch c < 256)%N)) (p_rows p)).
+  { eapply Forall_impl; [|exact Hcells]. intros r Hr. eapply Forall_impl; [|exact Hr]. intros c ((Hc & _) & _). exact Hc. }
+  assert (Hdu : save_xbo false p = Ok (xb_data p0 true fa fb h)).
+  { rewrite (xb_saveo p true pa pb fa fb h false Hshape). unfold xb_data_section, xb_pages.
+    rewrite (save_rows_chk_ok _ 11 (p_rows p) Hch). cbn [bind].
+    assert (Hrows0 : save_rows (fun c => [c_ch c; encode_attr (p_ice p) [pa; pb] c]) (p_rows p) = save_rows (xb_enc p0 true) (p_rows p0)).
+    { unfold p0 at 2, renum2. cbn [p_rows]. rewrite save_rows_map. apply save_rows_ext. intro c.
+      unfold xb_enc, xb_fonts, encode_attr, p0, renum2. cbn [p_ice cell_with_page c_ch c_attr with_page font_page].
+      f_equal. f_equal. f_equal. destruct (pg c =? pb)%N; reflexivity. }
+    rewrite Hrows0. rewrite <- xb_file_plain. reflexivity. }
+  destruct (xb_load_any_compress p true pa pb fa fb h s comp _ _ Hshape Hdu
+              (xb_fixed_accepts _ _ _ (xb_load p0 s true fa fb h Hh0))) as (data & Hs & Hl).
+  exists data, (xb_bfin p0 true fa fb h). split; [exact Hs|]. split; [exact Hl|].
+  pose proof (xb_same p0 true fa fb h Hh0) as (Sw & Sh & Sm & Scells & Spal & Sfonts).
+  cbn [xb_fonts] in Sfonts.
+  split; [exact Sw|]. split; [exact Sh|]. split; [exact Sm|]. split; [|exact Spal].
+  unfold p0 at 1, renum2 in Scells. cbn [p_rows] in Scells.
+  apply Forall2_map_l_inv in Scells.
+  eapply Forall2_Forall_l; [|exact Hpages|exact Scells]. cbv beta. intros r r' Hr Hrr.
+  apply Forall2_map_l_inv in Hrr.
+  eapply Forall2_Forall_l; [|exact Hr|exact Hrr]. cbv beta. intros c c' Hck (Hch1 & Hsh & Hpg').
+  split; [exact Hch1|]. split; [exact Hsh|].
+  rewrite <- (Hpg' eq_refl). cbn [cell_with_page c_attr with_page font_page].
+  unfold same_fonts in Sfonts. pose proof (Forall_inv Sfonts) as S0. pose proof (Forall_inv (Forall_inv_tail Sfonts)) as S1'.
+  unfold p0, renum2 in S0, S1'. cbn [p_fonts get_font N.eqb Pos.eqb] in S0, S1'.
+  destruct Hck as [Hck|[Hck|[]]].
+  - rewrite <- Hck, Hfa. destruct (N.eqb_spec pa pb) as [E|_]; [contradiction|]. exact S0.
+  - rewrite <- Hck, Hfb, N.eqb_refl. exact S1'.
+Qed.
+
 (* ------------------------------------------------------------------ what the readers store, on arbitrary bytes *)
 Definition stored_xb (m : IceMode) (ext : bool) (c : cell) : Prop :=
   c = invisible_cell \/ exists ch a, (ch < 256)%N /\ (a < 256)%N /\ c = xb_decode m ext ch a.
